@@ -1,7 +1,7 @@
 (* C12 -- HTTP/3 and WebTransport stream rules are enforced with the prescribed error. *)
 From WT.Model Require Import Base Varint Ids Frame Async StreamTS Wire Qpack Session Runner.
 From WT.Spec Require Import Spec9114.
-From WT.Proofs Require Import VarintP FrameP AsyncP StreamTSP WireP RunnerP SpecP.
+From WT.Proofs Require Import VarintP FrameP AsyncP StreamTSP WireP RunnerP SpecP ControlSpecP.
 
 (* every accept/reject verdict of every typestate, for every frame, is the one
    of the specification table (RFC 9114 7.2, WT draft 4.2) with a prescribed code *)
@@ -64,6 +64,30 @@ Theorem C12_duplicate_critical_stream :
     (k = SQPackDecoder /\ has_dec c = true) ->
     uni_accept c (sheader_write (mksheader k None) ++ rest) t = (RClose EStreamCreation, c).
 Proof. exact uni_accept_duplicate_critical. Qed.
+
+(* sequences: for EVERY sequence of frames on the peer's control stream (SETTINGS, GREASE, unknown
+   types, DATA, HEADERS, WebTransport signals, any payloads within the parse limit, any length) and
+   every way the stream ends, the runner's reaction is the one the sequential rules of RFC 9114
+   6.2.1 / 7.2.4 / 7.2.8 prescribe ([spec_control], an automaton over abstract items written from the
+   RFC): close with one of the prescribed codes, or keep going.  By induction over the sequence. *)
+Theorem C12_control_stream_refines_spec :
+  forall items t, forallb citem_ok items = true ->
+    refines (spec_control false items t) (settings_run (S (length items)) None (enc_citems items) t).
+Proof. exact control_stream_refines_spec. Qed.
+(* no permitted sequence is rejected *)
+Theorem C12_permitted_control_stream_accepted :
+  forall payload items,
+    citem_ok (CSettings payload) = true -> forallb citem_ok items = true -> forallb benign items = true ->
+    fst (settings_run (S (S (length items))) None (enc_citems (CSettings payload :: items)) Lost) = RNotConnected.
+Proof. exact permitted_control_stream_accepted. Qed.
+
+Definition ex_items : list citem :=
+  [CUnknown 7 [1]; CSettings [1; 0]; CGrease 33 [9; 9]; CUnknown 16962 [0; 4; 0]; CData [1]].
+Example C12_sequence_example :
+  (forallb citem_ok ex_items = true) /\
+  (spec_control false ex_items Fin = VClose [H3_FRAME_UNEXPECTED]) /\
+  (fst (settings_run 6 None (enc_citems ex_items) Fin) = RClose EFrameUnexpected).
+Proof. vm_compute. repeat split; reflexivity. Qed.
 
 Example C12_example :
   settings_run 4 None [4; 0; 4; 0] Fin = (RClose EFrameUnexpected, Some []) /\
